@@ -15,18 +15,23 @@ W(i) == <<[k |-> "pos", v |-> "NN", cp |-> <<78, 78>>], [k |-> "word", v |-> "w"
 Leaf(c, i) == [k |-> "L", cat |-> c, lab |-> "lex", sym |-> "<lex>", hl |-> TRUE, tok |-> W(i), kids |-> <<>>]
 Un(c, t) == [k |-> "U", cat |-> c, lab |-> "lex", sym |-> "<un>", hl |-> TRUE, tok |-> <<>>, kids |-> <<t>>]
 Bin(c, l, r, hl) == [k |-> "B", cat |-> c, lab |-> "fa", sym |-> ">", hl |-> hl, tok |-> <<>>, kids |-> <<l, r>>]
-(* all trees over leaves first..first+n-1; u = unary nodes still allowed on top (at most one per node) *)
-RECURSIVE Trees(_, _, _)
-Trees(first, n, u) ==
-  LET base == IF n = 1 THEN {Leaf(c, first) : c \in Cats2}
-              ELSE UNION {{Bin(C1, l, r, hl) : l \in Trees(first, m, 1), r \in Trees(first + m, n - m, 1), hl \in BOOLEAN} : m \in 1..(n - 1)}
-  IN IF u = 0 THEN base ELSE base \cup {Un(C2, t) : t \in base}
-AllTrees == UNION {Trees(1, n, 1) : n \in 1..MaxLeaves}
-
-VARIABLE d
-Init == d \in AllTrees
-Next == FALSE /\ UNCHANGED d
-Spec == Init /\ [][Next]_d
+(* The derivations are grown by a shift-reduce machine (one action per constructor), so that TLC explores them as a state graph
+   with all its workers instead of building the whole set of trees for the initial predicate (which it does in one thread and
+   did not finish for four leaves): a state is a forest over the leaves 1..nl; Shift adds a leaf, Wrap puts a unary node on
+   the last tree (at most one per node), Reduce joins the last two trees with either head direction.  Every derivation with up
+   to MaxLeaves leaves is the single tree of exactly one reachable state; the laws are stated for those states. *)
+VARIABLES forest, nl
+Init == forest = <<>> /\ nl = 0
+Shift(c) == nl < MaxLeaves /\ nl' = nl + 1 /\ forest' = Append(forest, Leaf(c, nl + 1))
+Wrap == /\ Len(forest) >= 1 /\ forest[Len(forest)].k # "U"
+        /\ forest' = [forest EXCEPT ![Len(forest)] = Un(C2, @)] /\ UNCHANGED nl
+Reduce(hl) == /\ Len(forest) >= 2
+              /\ forest' = Append(SubSeq(forest, 1, Len(forest) - 2), Bin(C1, forest[Len(forest) - 1], forest[Len(forest)], hl))
+              /\ UNCHANGED nl
+Next == (\E c \in Cats2 : Shift(c)) \/ Wrap \/ (\E hl \in BOOLEAN : Reduce(hl))
+Spec == Init /\ [][Next]_<<forest, nl>>
+Complete == Len(forest) = 1
+d == IF Complete THEN forest[1] ELSE Leaf(C1, 1)       \* the laws below are evaluated on complete derivations (a leaf otherwise)
 
 NL == Len(LeafSeq(d))
 dp == Deps(d)
